@@ -137,8 +137,15 @@ def run_case(case):
 
     try:
         if not srv.wait_ready(20):
-            if srv.proc.poll() is not None or "Worker failed to boot" in srv.logtext() or "Error" in srv.logtext()[-3000:]:
+            if srv.proc.poll() is not None:
                 return Outcome([], False, classes + ["refused-to-start"], sample={"case": case, "log": srv.logtext()[-300:]})
+            log = srv.logtext()
+            boots = log.count("Booting worker with pid")
+            if boots >= 4 or "Exception in worker process" in log:
+                # the master runs and keeps respawning: what the workers need after the privilege drop is not usable
+                V("heartbeat-usable", "workers-crash-after-privilege-drop", {"boots": boots, "errors": [l for l in log.splitlines() if "rror" in l][:4]},
+                  "workers keep running")
+                return Outcome(vio, True, classes, sample={"case": case})
             return Outcome([], False, classes + ["inconclusive:not-ready"], sample={"case": case})
         gen0 = check_generation("initial", srv.pid)
         if not vio:
